@@ -106,13 +106,19 @@ def is_ignored_via_comment(error: Error) -> bool:
 
     line = get_source_lines(error.filename)[error.line - 1].rstrip()
 
-    if comment := re.search(r"""# noqa(: [^'"]*)?$""", line):
+    if comments := re.search(r"""# noqa[^'"]*$""", line):
         ignore = str(ErrorCode.from_error(type(error)))
-        error_codes = comment.group(1)
 
-        return not error_codes or any(
-            error_code == ignore for error_code in error_codes[2:].replace(",", " ").split(" ")
-        )
+        # A line can carry several comments, e.g. `# noqa: E501  # noqa: FURB123`
+        for comment in map(str.strip, comments.group().split("#")):
+            if comment == "noqa":
+                return True
+
+            if comment.startswith("noqa: "):
+                error_codes = comment[6:].replace(",", " ").split(" ")
+
+                if ignore in error_codes:
+                    return True
 
     return False
 
